@@ -107,6 +107,42 @@ theorem drm_zero_freq (T : Matrix b o K) (φ : Matrix o b K) (M : Matrix o o K) 
   show (T * (φ * (φᵀ * M * φ)⁻¹ * φᵀ) * Tᵀ)⁻¹ = _
   rw [this, nonsing_inv_nonsing_inv _ hm]
 
+/-- ★ `drm_congruence`.  A recovery matrix `S · T` (new boundary coordinates `x_b' = S x_b`: a sign
+flip, a change of units, any invertible `S`) gives the apparent mass of `T` transformed by the
+congruence `S⁻ᵀ · AM · S⁻¹` — because the accelerance is `S (T D⁻¹ Tᵀ) Sᵀ`. -/
+theorem drm_congruence (S : Matrix b b K) (T : Matrix b o K) (D : Matrix o o K) :
+    (drmAM (S * T) D (S * T)ᵀ : Matrix b b K) = (S⁻¹)ᵀ * drmAM T D Tᵀ * S⁻¹ := by
+  show (S * T * D⁻¹ * (S * T)ᵀ)⁻¹ = (S⁻¹)ᵀ * (T * D⁻¹ * Tᵀ)⁻¹ * S⁻¹
+  have : S * T * D⁻¹ * (S * T)ᵀ = S * (T * D⁻¹ * Tᵀ) * Sᵀ := by
+    rw [transpose_mul]; simp only [Matrix.mul_assoc]
+  rw [this, Matrix.mul_inv_rev, Matrix.mul_inv_rev, transpose_nonsing_inv, Matrix.mul_assoc]
+  simp only [Matrix.mul_assoc]
+
+/-- ★ `forms_agree` for a SIGNED / SCALED selection: rows `s_i e_iᵀ` (`S = diagonal s`; a model DOF
+defined opposite to the interface coordinate, interface coordinates in other units) — the recovery-
+matrix form is the Schur complement scaled entry by entry, `AM'_ij = AM_ij / (s_i s_j)`; in
+particular it is NOT the apparent mass of the plain selection unless every `s_i = ±1` and the signs
+agree. -/
+theorem forms_agree_scaled_selection (s : b → K) (hs : ∀ i, IsUnit (s i))
+    (Dbb : Matrix b b K) (Dbq : Matrix b q K) (Dqb : Matrix q b K)
+    (Dqq : Matrix q q K) (hD : IsUnit (fromBlocks Dbb Dbq Dqb Dqq).det) (hqq : IsUnit Dqq.det) :
+    (drmAM (Matrix.diagonal s * fromCols (1 : Matrix b b K) (0 : Matrix b q K))
+        (fromBlocks Dbb Dbq Dqb Dqq)
+        (Matrix.diagonal s * fromCols (1 : Matrix b b K) (0 : Matrix b q K))ᵀ : Matrix b b K)
+      = Matrix.of fun i j => Ring.inverse (s i) * schurAM Dbb Dbq Dqb Dqq i j * Ring.inverse (s j) := by
+  have hT : (fromCols (1 : Matrix b b K) (0 : Matrix b q K))ᵀ = fromRows (1 : Matrix b b K) (0 : Matrix q b K) := by
+    rw [transpose_fromCols, transpose_one, transpose_zero]
+  rw [drm_congruence, hT, forms_agree Dbb Dbq Dqb Dqq hD hqq]
+  have hinv : (Matrix.diagonal s)⁻¹ = Matrix.diagonal fun i => Ring.inverse (s i) := by
+    apply inv_eq_right_inv
+    rw [Matrix.diagonal_mul_diagonal]
+    have : (fun i => s i * Ring.inverse (s i)) = fun _ => (1 : K) := by
+      funext i; exact Ring.mul_inverse_cancel _ (hs i)
+    rw [this, Matrix.diagonal_one]
+  rw [hinv, Matrix.diagonal_transpose]
+  ext i j
+  rw [Matrix.mul_diagonal, Matrix.diagonal_mul, Matrix.of_apply]
+
 end routes
 
 /-- ★ counterexample: where the model is NOT in Craig-Bampton form the routes disagree.  Two unit
@@ -225,4 +261,18 @@ theorem am_low_frequency_expansion (t : K) (hst : s * t = 1)
   rw [e1, e2, one_smul]
 
 end lowfreq
+
+/-- `forms_agree_scaled_selection` is not vacuous and matters: one boundary DOF read in inches
+(`s = 39.37`): an apparent mass `3/2` becomes `(3/2) / 39.37²`, not `3/2` -/
+example : IsUnit (39.37 : ℚ)
+    ∧ IsUnit (Matrix.fromBlocks ((2 : ℚ) • (1 : Matrix (Fin 1) (Fin 1) ℚ)) (0 : Matrix (Fin 1) (Fin 1) ℚ)
+        (0 : Matrix (Fin 1) (Fin 1) ℚ) ((2 : ℚ) • (1 : Matrix (Fin 1) (Fin 1) ℚ))).det
+    ∧ IsUnit ((2 : ℚ) • (1 : Matrix (Fin 1) (Fin 1) ℚ)).det
+    ∧ Ring.inverse (39.37 : ℚ) * (3 / 2) * Ring.inverse (39.37 : ℚ) ≠ 3 / 2 := by
+  refine ⟨by norm_num, ?_, ?_, ?_⟩
+  · rw [Matrix.det_fromBlocks_zero₁₂]
+    simp [Matrix.det_unique]
+  · simp [Matrix.det_unique]
+  · rw [Ring.inverse_eq_inv']; norm_num
+
 end PyYetiVerif.C15
